@@ -172,7 +172,7 @@ func (r *Run) checkAfterFull(P string) {
 			r.R.Unk(id, rule, core.FuncName(f), r.where(f), why, "cannot evaluate: "+why2)
 			return
 		}
-		c, isC := ret.Results[0].(*ssa.Const)
+		c, isC := core.RetOp(ret, 0).(*ssa.Const)
 		if !isC {
 			r.R.Unk(id, rule, core.FuncName(f), r.where(f), why, "non-constant result")
 			return
@@ -261,7 +261,7 @@ func runC06(r *Run) {
 				continue
 			}
 			n++
-			t := ff.TB.Of(ri.Ret.Results[2])
+			t := ff.TB.Of(core.RetOp(ri.Ret, 2))
 			if core.MatchTerm("filterOps(...)", t, core.Bind{}) {
 				continue
 			}
@@ -372,10 +372,10 @@ func runC06(r *Run) {
 				continue
 			}
 			n++
-			sl, isSl := ri.Ret.Results[0].(*ssa.Slice)
+			sl, isSl := core.RetOp(ri.Ret, 0).(*ssa.Slice)
 			if !isSl || sl.X != fi.Params[0] || sl.Low != nil || sl.High == nil {
 				good = false
-				det = append(det, "result is not a prefix slice of the input: "+ff.TB.Of(ri.Ret.Results[0]).String())
+				det = append(det, "result is not a prefix slice of the input: "+ff.TB.Of(core.RetOp(ri.Ret, 0)).String())
 				continue
 			}
 			hi := ff.TB.Of(sl.High).String()
